@@ -419,6 +419,13 @@ Print Assumptions C15_residue_method_forms_identical.
     gcd_ops.rs mod repr), for ANY kernels: the separately written ownership impls are the same
     function of the kernels (T * &T runs the arms on the exchanged operands; &T / T copies the
     shorter dividend into the divisor's buffer) *)
+Theorem C15_gen_add_sub_arms_same : forall K,
+  (forall a b, k_add_dword K a b = k_add_dword K b a) -> (forall a b, k_add_large K a b = k_add_large K b a) ->
+  (forall a b, k_sub_large_ref_val K a b = k_sub_large K a b) ->
+  forall o x y, gen_add K o x y = gen_add K OVV x y /\ gen_sub K o x y = gen_sub K OVV x y.
+Proof. intros K H0 H1 H2 o x y. exact (conj (gen_add_arms_same K H0 H1 o x y) (gen_sub_arms_same K H2 o x y)). Qed.
+Print Assumptions C15_gen_add_sub_arms_same.
+
 Theorem C15_gen_mul_arms_same : forall K x y,
   gen_mul K ORV x y = gen_mul K OVV x y /\ gen_mul K ORR x y = gen_mul K OVV x y /\
   gen_mul K OVR x y = gen_mul K OVV y x.
@@ -440,13 +447,15 @@ Print Assumptions C15_gen_gcd_arms_same.
 (** the regenerated arm tables ARE the hand-written form models of the theorems above *)
 Theorem C15_gen_int_arms_model : forall w k_dw k_dd k_rw k_rd k_large k_dg k_wg k_core k_xd k_xld k_xl o x y,
   let MK := model_kernels w k_dw k_dd k_rw k_rd k_large k_dg k_wg k_core k_xd k_xld k_xl in
+  gen_add MK o x y = Ok (repr_add w o x y) /\ gen_sub MK o x y = repr_sub w o x y /\
   gen_mul MK o x y = repr_mul_form w o x y /\
   gen_div_rem MK o x y = repr_div_rem_form w k_dw k_dd k_large o x y /\
   gen_div MK o x y = repr_div_form w k_dw k_dd k_large o x y /\
   gen_rem MK o x y = repr_rem_form w k_rw k_rd k_large o x y /\
   gen_gcd MK o x y = repr_gcd_form w k_dg k_wg k_rw k_rd k_core o x y.
 Proof.
-  intros. exact (conj (gen_mul_model _ _ _ _ _ _ _ _ _ _ _ _ o x y) (conj (gen_div_rem_model _ _ _ _ _ _ _ _ _ _ _ _ o x y)
+  intros. refine (conj (gen_add_model _ _ _ _ _ _ _ _ _ _ _ _ o x y) (conj (gen_sub_model _ _ _ _ _ _ _ _ _ _ _ _ o x y) _)).
+  exact (conj (gen_mul_model _ _ _ _ _ _ _ _ _ _ _ _ o x y) (conj (gen_div_rem_model _ _ _ _ _ _ _ _ _ _ _ _ o x y)
     (conj (gen_div_model _ _ _ _ _ _ _ _ _ _ _ _ o x y) (conj (gen_rem_model _ _ _ _ _ _ _ _ _ _ _ _ o x y) (gen_gcd_model _ _ _ _ _ _ _ _ _ _ _ _ o x y))))).
 Qed.
 Print Assumptions C15_gen_int_arms_model.
